@@ -58,6 +58,12 @@ void apply_edits(World &W, Peer &p, const J &edits)
 			snapshot(p);
 			changed = false;
 		} else if (k == "drophist") {
+			// changes made earlier in this list belong to a serial of their own: an honest cache never lets an old
+			// serial stand for newer data
+			if (changed) {
+				p.serial++;
+				changed = false;
+			}
 			p.hist.clear();
 			snapshot(p);
 		} else if (k == "nodata") {
@@ -65,6 +71,12 @@ void apply_edits(World &W, Peer &p, const J &edits)
 		} else if (k == "vmax") {
 			p.vmax = (int)e[(size_t)1].num() ? 1 : 0;
 		} else if (k == "serial") {
+			// a jump of the serial number with the history gone; the session changes with it when data changed in the
+			// same step, so that no client can hold this (session, serial) for older data
+			if (changed) {
+				p.session = (uint16_t)(p.session + 1);
+				changed = false;
+			}
 			p.serial = (uint32_t)e[(size_t)1].num();
 			p.hist.clear();
 			snapshot(p);
